@@ -361,22 +361,42 @@ func findBug(tb tb, deadline time.Time, checks int, seed uint64, prop func(*T)) 
 	return valid, invalid, false, 0, nil
 }
 
-func checkOnce(t *T, prop func(*T)) (err *testError) {
+func checkOnce(t *T, prop func(*T)) *testError {
 	if t.tbLog {
 		t.tb.Helper()
 	}
-	defer func() {
-		err = panicToError(recover(), 3)
-		// A non-fatal failure that is still pending here (Errorf followed by Skip, or Errorf called
-		// from a cleanup function) falsifies this test case; it must not be lost, and it must not
-		// leak into the next test case run on the same T.
-		if failed := t.resetFailed(); failed != "" && (err == nil || err.isInvalidData()) {
-			err = panicToError(failed, 2)
+
+	err := runProp(t, prop)
+	// A non-fatal failure falsifies the test case however the property ended: by returning, by
+	// skipping afterwards, or when it was signalled from a cleanup function. It is checked here,
+	// after the property and its cleanups are done, so that every such failure has one and the
+	// same traceback, and it is cleared so that it does not leak into the next test case run
+	// on the same T.
+	if err == nil || err.isInvalidData() {
+		if failed := pendingFailure(t); failed != nil {
+			err = failed
 		}
-	}()
+	}
+	t.resetFailed()
+
+	return err
+}
+
+func runProp(t *T, prop func(*T)) (err *testError) {
+	if t.tbLog {
+		t.tb.Helper()
+	}
+	defer func() { err = panicToError(recover(), 3) }()
 
 	defer t.cleanup()
 	prop(t)
+
+	return nil
+}
+
+func pendingFailure(t *T) (err *testError) {
+	defer func() { err = panicToError(recover(), 3) }()
+
 	t.failOnError()
 
 	return nil
